@@ -123,14 +123,38 @@ def st_other_version(ctx, home, insp):
     m["version"] = "0.0.1"
     json.dump(m, open(_meta_path(home), "w"))
 
-def st_foreign(kind):
+def build_foreign_template(ctx, insp, path, same_size):
+    docs = [{"tokens": q.split(" "), "description": "POISON for " + q, "value": -424242} for q in ctx["probes"]]
+    if same_size:
+        docs += [{"tokens": ["filler%d" % i], "description": "filler %d" % i, "value": i} for i in range(ctx["docs"] - len(docs))]
+    tmp = path + ".tmp%d" % os.getpid()
+    r = insp.call({"op": "build_foreign", "dir": tmp, "docs": docs}, timeout=300)
+    assert "ok" in r, r
+    try:
+        os.rename(tmp, path)
+    except OSError:
+        shutil.rmtree(tmp, ignore_errors=True)      # another shard was faster
+
+def st_foreign(kind, same_size=False):
+    """An index for OTHER data (same schema; its documents answer the probe phrases with poisoned values). same_size: padded with filler
+    documents to exactly the shipped document count, so that nothing but its content tells it from the shipped data (seed C15-c).
+    kind: what meta.json says - an old hash, another version, or nothing at all / nothing usable (a rebuild that was killed right
+    after it had forgotten the metadata leaves exactly that behind)."""
     def f(ctx, home, insp):
         os.makedirs(os.path.join(home, "facts"))
-        docs = [{"tokens": q.split(" "), "description": "POISON for " + q, "value": -424242} for q in ctx["probes"]]
-        r = insp.call({"op": "build_foreign", "dir": os.path.join(home, "facts", "index"), "docs": docs}, timeout=300)
-        assert "ok" in r, r
-        m = {"version": ctx["version"], "database_hash": "00000000000000000000000000000000"} if kind == "oldhash" else {"version": "0.0.9", "database_hash": ctx["hash"]}
-        json.dump(m, open(_meta_path(home), "w"))
+        tpl = os.path.join(ctx["valid_home"], "foreign-same-size" if same_size else "foreign")
+        if not os.path.isdir(tpl):       # built once per run (prepare), copied per history
+            build_foreign_template(ctx, insp, tpl, same_size)
+        shutil.copytree(tpl, os.path.join(home, "facts", "index"))
+        if kind == "oldhash":
+            json.dump({"version": ctx["version"], "database_hash": "00000000000000000000000000000000"}, open(_meta_path(home), "w"))
+        elif kind == "otherversion":
+            json.dump({"version": "0.0.9", "database_hash": ctx["hash"]}, open(_meta_path(home), "w"))
+        elif kind == "metaempty":
+            open(_meta_path(home), "w").close()
+        elif kind == "metaemptyobject":
+            open(_meta_path(home), "w").write("{}")
+        # kind == "metamissing": no meta.json at all
     return f
 
 def st_meta(content):
@@ -167,6 +191,12 @@ def states(ctx):
     S["other-version"] = st_other_version
     S["other-data-old-hash"] = st_foreign("oldhash")
     S["other-data-other-version"] = st_foreign("otherversion")
+    S["other-data-meta-missing"] = st_foreign("metamissing")
+    S["other-data-same-size-old-hash"] = st_foreign("oldhash", True)
+    S["other-data-same-size-other-version"] = st_foreign("otherversion", True)
+    S["other-data-same-size-meta-missing"] = st_foreign("metamissing", True)
+    S["other-data-same-size-meta-empty"] = st_foreign("metaempty", True)
+    S["other-data-same-size-meta-empty-object"] = st_foreign("metaemptyobject", True)
     S["meta-missing"] = st_meta(None)
     S["meta-empty"] = st_meta(b"")
     for k in (1, len(valid_meta) // 2, len(valid_meta) - 1):
@@ -255,6 +285,9 @@ def prepare(binp):
         got = d.call({"op": "read_index", "dir": os.path.join(valid_home, "facts", "index")})
     if "ok" not in got or got["ok"]["digest"] != ctx["digest"] or got["ok"]["docs"] != ctx["docs"]:
         raise RuntimeError("harness self-check failed: a cleanly built index does not hold the expected payload digest: %r vs %r" % (got, exp))
+    with Driver(binp) as d:
+        build_foreign_template(ctx, d, os.path.join(valid_home, "foreign"), False)
+        build_foreign_template(ctx, d, os.path.join(valid_home, "foreign-same-size"), True)
     return ctx
 
 def run(tier, seed):
